@@ -305,4 +305,7 @@ theorem case_first_match (pats : List (List PatternChar)) (subj : List Char) :
 
 end Proofs
 
+theorem toLiteral_glob' (ast : Ast) (l : List Char) (h : toLiteral ast = some l) (s : List Char) :
+    globAtoms ast s = decide (s = l) := Proofs.toLiteral_glob ast l h s
+
 end YashModel.Fnmatch
